@@ -151,7 +151,9 @@ theorem trackChild_me (k : Child) (s : HSt) :
   · exact Or.inl rfl
   · split
     · exact Or.inl rfl
-    · exact Or.inr rfl
+    · split
+      · exact Or.inl rfl
+      · exact Or.inr rfl
 @[keepsConst] theorem trackChild_c (k) : Keeps (ConstI c) (trackChild k) := by
   constructor; intro s h
   rcases trackChild_me k s with h1 | h1 <;> (simp only [ConstI, h1]; simpa [ConstI, CoreConst, XSa.setKids] using h)
